@@ -14,6 +14,7 @@
 //
 //	Connection lines: was the connection reused?
 //
+// pipe:     a real PipelineClient does sequential calls; which connection is each request written on?
 // respset:  Set("Connection", v) / SetConnectionClose on a ResponseHeader: what Header() writes, ConnectionClose().
 package main
 
@@ -24,6 +25,7 @@ import (
 	"math/rand"
 	"net"
 	"strings"
+	"sync"
 	"sync/atomic"
 	"time"
 
@@ -34,7 +36,7 @@ import (
 )
 
 type desc struct {
-	Op     string           `json:"op"` // hist | reqflag | respflag | client | respset
+	Op     string           `json:"op"` // hist | reqflag | respflag | client | pipe | respset
 	Sc     servlib.Scenario `json:"sc,omitempty"`
 	Reqs   []servlib.Req    `json:"reqs,omitempty"`
 	Pipe   int              `json:"pipe,omitempty"` // hist: this many leading requests go out in one write
@@ -47,6 +49,12 @@ type desc struct {
 	Reset  bool             `json:"reset,omitempty"`  // client: MaxConnDuration expired
 	Stream bool             `json:"stream,omitempty"` // client: StreamResponseBody
 	Tail   string           `json:"tail,omitempty"`   // hist: "open" = the client goes silent and the read deadline fires
+	Resps  []pipeResp       `json:"resps,omitempty"`  // pipe: the response to each of the sequential calls
+}
+
+type pipeResp struct {
+	V10  bool     `json:"v10,omitempty"`
+	Vals []string `json:"vals,omitempty"`
 }
 
 var connValues = []string{"close", "Close", "CLOSE", "keep-alive", "Keep-Alive", "keep-alive, close", "close, foo", "upgrade",
@@ -254,6 +262,14 @@ func corpus() []desc {
 		c = append(c, desc{Op: "client", ReqCl: true, Vals: vs}, desc{Op: "client", Reset: true, Vals: vs},
 			desc{Op: "client", Stream: true, Vals: vs}, desc{Op: "client", Stream: true, V10: true, Vals: vs})
 	}
+	// PipelineClient: the witness of the repaired defect (a response with Connection: close, then more calls) and its relatives
+	c = append(c,
+		desc{Op: "pipe", Resps: []pipeResp{{Vals: []string{"close"}}, {}, {}}},
+		desc{Op: "pipe", Resps: []pipeResp{{}, {Vals: []string{"Close"}}, {Vals: []string{"keep-alive"}}, {V10: true}, {V10: true, Vals: []string{"keep-alive"}}, {}}},
+		desc{Op: "pipe", Resps: []pipeResp{{Vals: []string{"keep-alive, close"}}, {Vals: []string{"close"}}, {Vals: []string{"close"}}, {}}},
+		desc{Op: "pipe", Resps: []pipeResp{{V10: true, Vals: []string{"upgrade"}}, {}, {Vals: []string{"upgrade", "close"}}, {}}},
+		desc{Op: "pipe", Resps: []pipeResp{{}, {}, {}, {}}},
+	)
 	// error responses always close
 	c = append(c, hist(servlib.Cfg{}, []servlib.Req{get(), {Raw: []byte("BAD\x01 / HTTP/1.1\r\n\r\n")}, get()}, nil))
 	return c
@@ -265,6 +281,19 @@ func gen(r *rand.Rand, i int) desc {
 		return desc{Op: "reqflag", V10: r.Intn(2) == 0, Vals: pickVals(r)}
 	case 1:
 		return desc{Op: "respflag", V10: r.Intn(2) == 0, Vals: pickVals(r)}
+	case 4:
+		if r.Intn(2) == 0 {
+			n := 2 + r.Intn(5)
+			d := desc{Op: "pipe"}
+			for ; n > 0; n-- {
+				pr := pipeResp{V10: r.Intn(4) == 0}
+				if r.Intn(2) == 0 {
+					pr.Vals = pickVals(r)
+				}
+				d.Resps = append(d.Resps, pr)
+			}
+			return d
+		}
 	case 2:
 		d := desc{Op: "client", Vals: pickVals(r), V10: r.Intn(3) == 0, Stream: r.Intn(4) == 0}
 		switch r.Intn(6) {
@@ -419,6 +448,16 @@ func run(d desc) hlib.Case {
 		return hlib.Case{Coq: hlib.App("CClient", hlib.Bool(!d.V10), hlib.Bool(d.Ident), hlib.Bool(d.ReqCl), hlib.Bool(d.Reset), hlib.Bool(d.Stream),
 			valsCoq(d.Vals), hlib.Z(int64(dials))),
 			Key: keyFor(d.Vals), Sig: fmt.Sprint("client", d.V10, d.Ident, d.ReqCl, d.Reset, d.Stream, d.Vals), Kind: "client", Size: len(d.Vals)}
+	case "pipe":
+		conns := runPipeline(d.Resps)
+		var rs, cs []string
+		for _, pr := range d.Resps {
+			rs = append(rs, hlib.Tuple(hlib.Bool(!pr.V10), valsCoq(pr.Vals)))
+		}
+		for _, c := range conns {
+			cs = append(cs, hlib.Z(int64(c)))
+		}
+		return hlib.Case{Coq: hlib.App("CPipe", hlib.List(rs), hlib.List(cs)), Sig: fmt.Sprint("pipe", d.Resps), Kind: "pipe", Size: len(d.Resps)}
 	case "respset":
 		var h fasthttp.ResponseHeader
 		h.SetNoDefaultContentType(true)
@@ -567,6 +606,106 @@ func runClient(d desc) int {
 	}
 	hc.CloseIdleConnections()
 	return int(atomic.LoadInt32(&dials))
+}
+
+// runPipeline: sequential calls (Do / DoTimeout / DoDeadline in turn) through a real PipelineClient against a
+// scripted server that answers request i with resps[i] and never closes a connection by itself.  Returns, per
+// request, the connection it was written on, numbered by first use.
+func runPipeline(resps []pipeResp) []int {
+	var mu sync.Mutex
+	var order []int          // dial number of the connection each request arrived on
+	closed := map[int]bool{} // connections the client has closed
+	var dials int32
+	var nreq int32
+	pc := &fasthttp.PipelineClient{
+		Addr:     "example.test:80",
+		MaxConns: 1,
+		Dial: func(addr string) (net.Conn, error) {
+			id := int(atomic.AddInt32(&dials, 1))
+			p := fasthttputil.NewPipeConns()
+			go func(c net.Conn) {
+				br := bufio.NewReader(c)
+				for {
+					var req fasthttp.Request
+					if err := req.Read(br); err != nil {
+						mu.Lock()
+						closed[id] = true
+						mu.Unlock()
+						return
+					}
+					i := int(atomic.AddInt32(&nreq, 1)) - 1
+					mu.Lock()
+					order = append(order, id)
+					mu.Unlock()
+					pr := pipeResp{}
+					if i < len(resps) {
+						pr = resps[i]
+					}
+					v := "1.1"
+					if pr.V10 {
+						v = "1.0"
+					}
+					out := "HTTP/" + v + " 200 OK\r\nContent-Length: 0\r\n"
+					for _, cv := range pr.Vals {
+						out += "Connection: " + cv + "\r\n"
+					}
+					out += "\r\n"
+					if _, err := c.Write([]byte(out)); err != nil {
+						return
+					}
+				}
+			}(p.Conn2())
+			return p.Conn1(), nil
+		},
+	}
+	for i := range resps {
+		req := fasthttp.AcquireRequest()
+		resp := fasthttp.AcquireResponse()
+		req.SetRequestURI("http://example.test/x")
+		var err error
+		switch i % 3 {
+		case 0:
+			err = pc.DoTimeout(req, resp, 2*time.Second)
+		case 1:
+			err = pc.DoDeadline(req, resp, time.Now().Add(2*time.Second))
+		default:
+			err = pc.Do(req, resp)
+		}
+		if err != nil {
+			panic(fmt.Sprint("pipeline: ", err))
+		}
+		said := resp.ConnectionClose()
+		fasthttp.ReleaseRequest(req)
+		fasthttp.ReleaseResponse(resp)
+		if said {
+			// let the client finish tearing the connection down before the next call (a request issued while
+			// the worker is stopping may still go out on the old connection; the property is about calls after)
+			mu.Lock()
+			last := order[len(order)-1]
+			mu.Unlock()
+			for k := 0; k < 400; k++ {
+				mu.Lock()
+				cl := closed[last]
+				mu.Unlock()
+				if cl {
+					break
+				}
+				time.Sleep(time.Millisecond)
+			}
+			time.Sleep(5 * time.Millisecond)
+		}
+	}
+	mu.Lock()
+	defer mu.Unlock()
+	num := map[int]int{}
+	var out []int
+	for _, id := range order {
+		if _, ok := num[id]; !ok {
+			num[id] = len(num) + 1
+		}
+		out = append(out, num[id])
+	}
+	return out
 }
 
 func main() {
